@@ -43,7 +43,33 @@ func clientTrace(w *hist.World) []string {
 	return out
 }
 
+// seekThenPrune: what a seek to a time settles is settled *now*, whatever the time
+// it names: the completed-deliveries pruner, run with an age threshold right after
+// such a seek into the past, has nothing of it to remove yet. (One directed step at
+// the end of every job history; the job's row diff is held against the model's
+// record of when the client call settled each delivery.)
+func seekThenPrune(w *hist.World) {
+	var names []string
+	for n, s := range w.Subs {
+		if !s.Wild && s.Topic.Live {
+			names = append(names, n)
+		}
+	}
+	if len(names) == 0 {
+		return
+	}
+	sortStr(names)
+	s := w.Subs[names[0]]
+	w.Publish(s.Topic.Name, []hist.PubMsg{{Data: []byte(`{"seek-then-prune":1}`)}, {Data: []byte(`{"seek-then-prune":2}`)}})
+	w.Pull(s.Name, 1000)
+	w.Jump(2 * time.Hour)
+	w.SeekTime(s.Name, time.Now().Add(-90*time.Minute))
+	w.RunJob("prune-completed-deliveries", time.Hour, 100)
+	w.RunJob("prune-completed-deliveries", time.Second, 100)
+}
+
 func converge(w *hist.World, g *hist.Gen) {
+	seekThenPrune(w)
 	// make everything dead: delete all subscriptions and topics
 	var subs, topics []string
 	for n := range w.Subs {
@@ -145,6 +171,7 @@ func converge(w *hist.World, g *hist.Gen) {
 // one): a job whose batch can be filled by rows it then does not remove would
 // starve the reclaimable rows behind them.
 func convergePinned(w *hist.World, g *hist.Gen) {
+	seekThenPrune(w)
 	r := w.R
 	var subs, topics []string
 	for n := range w.Subs {
